@@ -85,4 +85,22 @@ def FS.Stamped (fs : FS) (clock : Nat) : Prop :=
   (∀ c t, fs.main = some (c, t) → 1 ≤ t ∧ t ≤ clock) ∧
   (∀ d, some d ∈ fs.dirs → (1 ≤ d.mtime ∧ d.mtime ≤ clock) ∧ ∀ e ∈ d.entries, 1 ≤ e.mtime ∧ e.mtime ≤ clock)
 
+/-! ### Histories in which defaults keep being registered (C09 / C10) -/
+
+/-- a history step of a service that also registers defaults as it goes -/
+inductive OpR where
+  | fs (op : Op)                       -- a file operation or a load, as in C10
+  | register (d : RuleDefault)         -- `register_default(d)` (a duplicate name raises and changes nothing)
+deriving Inhabited
+
+structure WorldR where
+  world : World
+  regs : List RuleDefault
+
+def stepR (en : Bool) (w : WorldR) : OpR → WorldR
+  | .fs op => { w with world := step en w.regs w.world op }
+  | .register d =>
+    if w.regs.any (·.name = d.name) then w      -- DuplicatePolicyError: nothing changes
+    else { w with regs := w.regs ++ [d] }
+
 end OsloPolicy
